@@ -13,6 +13,7 @@ import (
 	"fmt"
 	"hash/fnv"
 	"math"
+	"reflect"
 
 	"github.com/pion/rtcp"
 )
@@ -340,9 +341,18 @@ var Spare [][]byte
 
 const SpareFill = 0xA5
 
+// emptyToggle alternates between the two Go representations of an empty list (nil and empty non-nil): the
+// abstract value does not distinguish them, a caller's struct may hold either. It is reset by Build, so what a
+// value gets depends only on the value.
+var emptyToggle int
+
 func GoBytes(x any) []byte {
 	l := List(x)
 	if len(l) == 0 {
+		emptyToggle++
+		if emptyToggle%2 == 0 {
+			return []byte{}
+		}
 		return nil
 	}
 	full := make([]byte, len(l)+8)
@@ -378,6 +388,10 @@ func GoU64(x any) uint64 {
 func GoU32s(x any) []uint32 {
 	l := List(x)
 	if len(l) == 0 {
+		emptyToggle++
+		if emptyToggle%2 == 0 {
+			return []uint32{}
+		}
 		return nil
 	}
 	out := make([]uint32, len(l))
@@ -530,6 +544,11 @@ func buildXRBlock(x any) rtcp.ReportBlock {
 // returns them) for an abstract value.
 func Build(x any) rtcp.Packet {
 	m := rec(x)
+	emptyToggle = len(m) // a function of the value
+	return build(m)
+}
+
+func build(m V) rtcp.Packet {
 	switch m["k"] {
 	case "SR":
 		return &rtcp.SenderReport{SSRC: GoU32(m["ssrc"]), NTPTime: GoU64(m["ntp"]), RTPTime: GoU32(m["rtp"]), PacketCount: GoU32(m["pc"]),
@@ -579,8 +598,15 @@ func Build(x any) rtcp.Packet {
 			cs = append(cs, BuildChunk(c))
 		}
 		var ds []*rtcp.RecvDelta
+		var prevDelta any
 		for _, d := range List(m["deltas"]) {
-			ds = append(ds, BuildDelta(d))
+			// two equal neighbours are one object listed twice (pointer lists allow it)
+			if n := len(ds); n > 0 && reflect.DeepEqual(d, prevDelta) {
+				ds = append(ds, ds[n-1])
+			} else {
+				ds = append(ds, BuildDelta(d))
+			}
+			prevDelta = d
 		}
 		return &rtcp.TransportLayerCC{Header: BuildHdr(m["hdr"]), SenderSSRC: GoU32(m["sender"]), MediaSSRC: GoU32(m["media"]),
 			BaseSequenceNumber: uint16(I(m["base"])), PacketStatusCount: uint16(I(m["count"])), ReferenceTime: GoU32(m["ref"]),
@@ -599,8 +625,14 @@ func Build(x any) rtcp.Packet {
 		return &rtcp.CCFeedbackReport{SenderSSRC: GoU32(m["sender"]), ReportBlocks: bs, ReportTimestamp: GoU32(m["ts"])}
 	case "XR":
 		var bs []rtcp.ReportBlock
+		var prevBlock any
 		for _, b := range List(m["blocks"]) {
-			bs = append(bs, buildXRBlock(b))
+			if n := len(bs); n > 0 && reflect.DeepEqual(b, prevBlock) {
+				bs = append(bs, bs[n-1])
+			} else {
+				bs = append(bs, buildXRBlock(b))
+			}
+			prevBlock = b
 		}
 		return &rtcp.ExtendedReport{SenderSSRC: GoU32(m["sender"]), Reports: bs}
 	case "RAW":
